@@ -139,3 +139,41 @@ package transaction
 //@ loop 0 invariant[wf] wfAttrs(t) ==> forall(i, 0, len(result), wfAttr(result[i]))
 //@ loop 0 invariant[fresh] (result == nil && len(result) == 0) || fresh(result)
 //@ loop 0 invariant[frame] same(t.Attributes, old(t.Attributes)) && forall(j, 0, len(t.Attributes), t.Attributes[j] == old(t.Attributes[j]))
+
+// ---- decoder safety sweep (C17): decoding arbitrary bytes never panics and the reader
+// stays well-formed; allocations are bounded by the checked element counts.
+//@ prop C17
+//@ import io github.com/nspcc-dev/neo-go/pkg/io
+
+//@ iface AttrValue.DecodeBinary
+//@ assumed
+//@ requires recv != nil && io.validR(arg0)
+//@ modifies arg0.Err, arg0.uv, arg0.r.pos
+//@ ensures old(arg0.r.pos) <= arg0.r.pos && io.validR(arg0)
+
+//@ func (*Witness).DecodeBinary
+//@ requires w != nil && io.validR(br)
+//@ modifies w.InvocationScript, w.VerificationScript, br.Err, br.uv, br.r.pos
+//@ ensures[reader] old(br.r.pos) <= br.r.pos && io.validR(br)
+//@ ensures[bound] len(w.InvocationScript) <= MaxInvocationScript && len(w.VerificationScript) <= MaxVerificationScript
+
+//@ func (*Signer).DecodeBinary
+//@ requires c != nil && io.validR(br)
+//@ modifies *c, br.Err, br.uv, br.r.pos
+//@ ensures[reader] old(br.r.pos) <= br.r.pos && io.validR(br)
+//@ ensures[scopes] br.Err == nil ==> (c.Scopes & Global != 0 ==> c.Scopes == Global)
+
+//@ func (*Attribute).DecodeBinary
+//@ requires attr != nil && io.validR(br)
+//@ modifies *attr, br.Err, br.uv, br.r.pos
+//@ ensures[reader] old(br.r.pos) <= br.r.pos && io.validR(br)
+
+//@ func (*Transaction).decodeHashableFields
+//@ requires t != nil && io.validR(br) && (buf != nil ==> is(br.r, *bytes.Reader) && len(buf) == len(br.r.in))
+//@ modifies *t, br.Err, br.uv, br.r.pos
+//@ opt frame off
+//@ opt stable br.r, br.r.pos, br.r.in
+//@ opt alloc-bound 16
+//@ ensures[reader] old(br.r.pos) <= br.r.pos && io.validR(br)
+//@ loop 0 invariant io.validR(br) && same(br.r, old(br.r)) && old(br.r.pos) <= br.r.pos && same(t.Signers, t.Signers)
+//@ loop 1 invariant io.validR(br) && same(br.r, old(br.r)) && old(br.r.pos) <= br.r.pos
